@@ -125,6 +125,7 @@ class Sched:
         self.preempt_plan = None  # set of line-event indices
         self.line_events = 0
         self.preempt_sites = []
+        self.poplog = None
         self.hooks_at_step = {}  # step -> [callable]  (fault triggers)
         self.on_quiescent = None
         self.abs_pairs = set()
@@ -334,49 +335,48 @@ class Sched:
         self.block(lambda: self.now >= until, delay, "sleep", label)
 
     # ---- choosing -----------------------------------------------------
-    def _runnable(self, t):
+    def _wake_time(self, t):
+        """Earliest simulated time at which task t can run (now if runnable, INF if never)."""
         if t.state == "done" or t.state == "new":
-            return False
+            return INF
         p = t.proc
         if p is not None and (not p.alive or p.stopped):
-            return False
+            return INF
+        now = self.now
+        if t.pending_exc is not None or t.pred is None:
+            base = now
+        elif t.deadline is not None and t.deadline <= now:
+            base = now
+        elif t.pred():
+            base = now
+        elif t.deadline is not None:
+            base = t.deadline
+        else:
+            base = INF
         st = self.stall.get(t.id)
         if st is not None:
-            if self.now < st:
-                return False
-            del self.stall[t.id]
-        if t.pending_exc is not None:
-            return True
-        if t.pred is None:
-            return True
-        if t.deadline is not None and t.deadline <= self.now:
-            return True
-        return bool(t.pred())
+            if st <= now:
+                del self.stall[t.id]
+            elif base != INF and st > base:
+                base = st
+        return base
 
     def _pick(self, cur, force_other=False):
         if self.finished:
             return None
         while True:
-            runnable = [t for t in self.tasks if self._runnable(t)]
-            if runnable:
-                break
-            # nobody can run: advance the clock to the next deadline
+            now = self.now
+            runnable = []
             nxt_time = INF
             for t in self.tasks:
-                if t.state in ("done", "new"):
-                    continue
-                p = t.proc
-                if p is not None and (not p.alive or p.stopped):
-                    continue
-                if t.deadline is not None and t.deadline < nxt_time:
-                    nxt_time = t.deadline
-                st = self.stall.get(t.id)
-                if st is not None and st < nxt_time and (t.pred is None):
-                    nxt_time = st
-                elif st is not None and t.pred is not None:
-                    # stalled and blocked: wakes at max(stall, ...) - re-evaluated then
-                    if st < nxt_time:
-                        nxt_time = st
+                wt = self._wake_time(t)
+                if wt <= now:
+                    runnable.append(t)
+                elif wt < nxt_time:
+                    nxt_time = wt
+            if runnable:
+                break
+            # nobody can run: advance the clock to the next wake-up time
             if nxt_time == INF:
                 if self.on_quiescent is not None and self.on_quiescent():
                     continue
@@ -385,8 +385,7 @@ class Sched:
             if nxt_time > self.max_time:
                 self._finish("time-cap")
                 return None
-            if nxt_time > self.now:
-                self.now = nxt_time
+            self.now = nxt_time
             self._log(-1, "clock", round(self.now, 6))
         if len(runnable) == 1:
             return runnable[0]
